@@ -214,7 +214,8 @@ def main():
         obligations, discharged, thm_details, thm_broken = check_theorems(prop, log)
 
     rng = random.Random(seed)
-    budget_scale = int(os.environ.get('HB_SCALE', '2'))      # quick: twice the base counts of the family modules
+    # quick: twice the base counts of the family modules; thorough: ten times its (much larger) base counts
+    budget_scale = int(os.environ.get('HB_SCALE', '2' if tier == 'quick' else '10'))
     if thm_broken:
         budget_scale = 10      # the search of DESIGN.md §5
     cases = fam.gen_cases(rng, tier, budget_scale)
